@@ -45,13 +45,13 @@ func (c c07config) joined() string {
 
 var c07configs = []c07config{
 	{"mem", nil, []string{"."}}, {"mem", nil, []string{"a"}}, {"mem", nil, []string{"a/b"}}, {"mem", nil, []string{"a", "b"}}, {"mem", nil, []string{"a", "."}},
-	{"mount", []string{"a"}, []string{"a"}},         // dir == mount point
-	{"mount", []string{"a/b"}, []string{"a"}},       // dir above a mount point
-	{"mount", []string{"a"}, []string{"a/b"}},       // dir inside a mount
-	{"mount", []string{"a", "a/b"}, []string{"a"}},  // dir is a mount point with another below it
-	{"mount", []string{"a/b"}, []string{"."}},       // view of the whole mount FS
-	{"mount", []string{"c"}, []string{"a"}},         // unrelated mount
-	{"mount", []string{"a/b"}, []string{"a", "b"}},  // nested Sub reaching a mount point
+	{"mount", []string{"a"}, []string{"a"}},            // dir == mount point
+	{"mount", []string{"a/b"}, []string{"a"}},          // dir above a mount point
+	{"mount", []string{"a"}, []string{"a/b"}},          // dir inside a mount
+	{"mount", []string{"a", "a/b"}, []string{"a"}},     // dir is a mount point with another below it
+	{"mount", []string{"a/b"}, []string{"."}},          // view of the whole mount FS
+	{"mount", []string{"c"}, []string{"a"}},            // unrelated mount
+	{"mount", []string{"a/b"}, []string{"a", "b"}},     // nested Sub reaching a mount point
 	{"mount", []string{"a", "a/b/c"}, []string{"a/b"}}, // dir inside one mount and above another
 	{"mount", []string{"a", "a/b/c"}, []string{"a", "b"}},
 	{"mount", []string{"a/b/c"}, []string{"a/b"}},
